@@ -38,7 +38,7 @@ def bfs(build, ops, key, check, depth, prefix=(), stats=None, max_states=None):
     live, ref = replay(prefix)
     if live is None:
         return 0, 0, 0, False
-    k0 = key(live, ref)
+    k0 = key(live, ref)  # always before check(): the oracle's own probe calls must not leak into state identity
     seen.add(k0)
     check(live, ref, prefix)
     frontier.append(tuple(prefix))
@@ -58,8 +58,8 @@ def bfs(build, ops, key, check, depth, prefix=(), stats=None, max_states=None):
             if live is None:
                 continue
             transitions += 1
-            check(live, ref, nh)
             k = key(live, ref)
+            check(live, ref, nh)
             maxd = max(maxd, len(nh))
             if k not in seen:
                 if max_states and len(seen) >= max_states:
